@@ -903,6 +903,13 @@ func (o *origin) RoundTrip(req *http.Request) (*http.Response, error) {
 		resp.ContentLength = 0
 		rd = http.NoBody
 	}
+	if rp.DeclLen > int64(len(body)) && body != nil && (rp.Shape == "" || rp.Shape == "cl" || rp.Shape == "h2") {
+		resp.ContentLength = rp.DeclLen
+		hdr.Set("Content-Length", strconv.FormatInt(rp.DeclLen, 10))
+		if call.Short == 0 {
+			call.Short = 1 // fewer bytes than announced: such a reply is not complete
+		}
+	}
 	if body == nil && rp.Shape != "nobody" {
 		rd = http.NoBody
 		if resp.ContentLength < 0 {
